@@ -4,7 +4,7 @@
 # Never touches /repo's working tree. Scratch: /tmp/rce-scratch (git worktree of /repo HEAD).
 set -u
 VERIF="$(cd "$(dirname "${BASH_SOURCE[0]}")/.." && pwd)"
-S=/tmp/rce-scratch
+S="${SCRATCH:-/tmp/rce-scratch}"
 TAG="$(printf '%s' "$S" | md5sum | cut -c1-8)"
 if [ "${1:-}" = "--clean" ]; then
   git -C /repo worktree remove --force "$S" 2>/dev/null; rm -rf "$S" "$VERIF/.build/"*"-$TAG"*; git -C /repo worktree prune; exit 0
